@@ -211,3 +211,13 @@ Definition mok_spec (k : mcase) : bool :=
        list_eqb nt_eqb (map ob_nt sel) (of_task t (mo_chrome k))
        && (negb (plt_free c (mfns k)) || list_eqb nd_eqb (map ob_nd sel) (of_task t (mo_replay k))))
      (tasks_of k).
+
+(* ---------------------------------------------------------------- end to end: a real traced program *)
+Record ecase := {
+  e_cfg : cfg; e_forest : list call;               (* -F / -N / -D only; the program's call forest, dummy times *)
+  e_rec : list (bool * N * Z);                     (* uftrace record OPTS prog; uftrace replay *)
+  e_opt : list (bool * N * Z)                      (* uftrace record prog; uftrace replay OPTS *)
+}.
+Definition ok_e2e (k : ecase) : bool :=
+  let want := map ob_nd (select (e_cfg k) (e_forest k)) in
+  list_eqb nd_eqb want (e_opt k) && list_eqb nd_eqb want (e_rec k).
